@@ -7,7 +7,8 @@ write batch of the code is a `publish` of the persistent image) and the core eng
 -/
 import QbiceVerif.Lemmas.EnginePersist
 import QbiceVerif.Lemmas.EnginePersistCore
-import QbiceVerif.Props.C01
+import QbiceVerif.Lemmas.EngineCoreEx
+import QbiceVerif.Lemmas.EnginePersistCoreFw
 
 namespace Qbice.Persist
 open Qbice.Engine
@@ -41,20 +42,23 @@ theorem restart_keeps_inputs (s : St) :
 theorem restart_loses_only_dirtied {s : St} (h : Quiescent s) :
     restart s = { s with dirtied := [], dirtiedEdges := 0 } := restart_quiescent h
 
-/-- "restarts inserted at arbitrary positions": for the full model AS IT IS (known finding F1 not
-    repaired) a restart in the middle of an epoch is NOT transparent — witness (finding F20,
-    reproduced on the real engine: corpus/C07-F20-dirtied-after-F1.txt).  The third round returns the
-    stale `Q = 10` (from-scratch: 20) with and without the restart: that is F1.  Then firewall `F` is
-    queried in the same epoch.  Without the restart its dirty propagation skips `x` (already in the
-    per-epoch `dirtied` set since the commit), `Q` keeps its clean edge and stays at 10 in the next
-    epoch; the reopened engine has an empty `dirtied` set, re-marks `(Q, x)`, and answers 20.  With F1
-    repaired in the model (`f1`) both runs return the from-scratch values and the restart changes
-    nothing on this history. -/
+/-- the engine model as the code was before the fixes of F1 / F14 in /repo (2abe9f6, b832249) -/
+def beforeF1Fix : Toggles := { f1p := false, f1q := false, f1r := false, f14 := false }
+
+/-- "restarts inserted at arbitrary positions": a restart in the middle of an epoch loses the
+    per-epoch `dirtied_queries` set, which a firewall recompute of the same epoch reads.  Witness
+    (finding F20, reproduced on the real engine before 2abe9f6: corpus/C07-F20-dirtied-after-F1.txt):
+    in the model of the code BEFORE the F1 fix the third round returns the stale `Q = 10`
+    (from-scratch: 20) with and without the restart — that was F1 — and afterwards the never-restarted
+    engine keeps 10 in the next epoch while the reopened one (empty `dirtied` set, edge `(Q, x)`
+    re-marked) answers 20: the restart was observable.  In the model of the code AS IT IS (`{}`: F1
+    fixed) both runs return the from-scratch values and the restart changes nothing on this history:
+    F20 was a consequence of F1 and went away with it. -/
 theorem restart_mid_epoch_witness :
-    runH {} witnessProgram (witnessBefore ++ witnessAfter) PS.init = some [[0], [10], [10], [20], [10]] ∧
-    runH {} witnessProgram (witnessBefore ++ [.restart] ++ witnessAfter) PS.init = some [[0], [10], [10], [20], [20]] ∧
-    runH { f1 := true } witnessProgram (witnessBefore ++ witnessAfter) PS.init = some [[0], [10], [20], [20], [20]] ∧
-    runH { f1 := true } witnessProgram (witnessBefore ++ [.restart] ++ witnessAfter) PS.init = some [[0], [10], [20], [20], [20]] := by
+    runH beforeF1Fix witnessProgram (witnessBefore ++ witnessAfter) PS.init = some [[0], [10], [10], [20], [10]] ∧
+    runH beforeF1Fix witnessProgram (witnessBefore ++ [.restart] ++ witnessAfter) PS.init = some [[0], [10], [10], [20], [20]] ∧
+    runH {} witnessProgram (witnessBefore ++ witnessAfter) PS.init = some [[0], [10], [20], [20], [20]] ∧
+    runH {} witnessProgram (witnessBefore ++ [.restart] ++ witnessAfter) PS.init = some [[0], [10], [20], [20], [20]] := by
   refine ⟨?_, ?_, ?_, ?_⟩ <;> decide +kernel
 
 example : Quiescent ({} : St) ∧ syncedB PS.init = true := ⟨⟨rfl, rfl, rfl⟩, by decide⟩
@@ -96,7 +100,8 @@ theorem restart_sound {p : Program} (wf : WF p) {h : List POp} {o : List (OpOut 
     subst e
     have h3 := runOpsL_fst p (POp.erase h) {}
     rw [h2] at h3
-    exact (core_history_sound wf h3.symm).1
+    -- C01's `core_history_sound` is `runOps_spec` on the initial state
+    exact ((runOps_spec wf (POp.erase h) {} (Inv.init p)).ok h3.symm).1
 
 /-- non-vacuity: the 4-key example program of C01 with a restart before the first session, one in
     the middle of an epoch (between two rounds) and two in a row before a session: same outputs,
@@ -116,3 +121,38 @@ example : (outs (runP exQ [.op (.sess [.world 1 7, .set 0 1]), .op (.round [3]),
       (.round [16, 7] [], []), (.sess [.refreshed], [1]), (.round [20] [2, 3], [2, 3])] := by decide
 
 end Qbice.Core
+
+namespace Qbice.CoreFw
+open Qbice.Core (Op OpOut Ref)
+
+/-- `restart_transparent` on the extended core model (all five query kinds: firewalls, projections
+    with backward projection, externals, unordered groups — C01's widest model): for every program,
+    state and history with restarts at arbitrary positions, the outputs — set_input results, values
+    AND the executor invocations of every round — are those of the same history without the restarts.
+    (In this model backward-edge sets have no walk order and there is no per-epoch `dirtied` set: what
+    finding F13 / the order of a reloaded set changes in the code is outside it.) -/
+theorem restart_transparent_fw (p : Program) (h : List POp) (s : St) :
+    outs (runP p h s) = outs (runOps p (POp.erase h) s) := runP_erase p h s
+
+/-- `restart_sound` on the extended core model, with C01's `core_history_sound_partial` (programs
+    without a projection over a projection): a history with restarts run from the initial state
+    produces the outputs of the from-scratch reference. -/
+theorem restart_sound_fw_partial {p : Program} (wf : WF p) (pf : NoProjOverProj p) {h : List POp}
+    {o : List OpOut} {s' : St} (hr : runP p h {} = .ok (o, s')) :
+    OutOK p (POp.erase h) o Ref.init := by
+  have e := restart_transparent_fw p h {}
+  rw [hr] at e
+  simp only [outs] at e
+  cases h2 : runOps p (POp.erase h) {} with
+  | error err => rw [h2] at e; cases e
+  | ok r =>
+    obtain ⟨o2, s2⟩ := r
+    rw [h2] at e
+    simp only [Except.ok.injEq] at e
+    subst e
+    exact ((runOps_spec wf pf (POp.erase h) {} (Inv.init p)).ok h2).1
+
+example (p : Program) : outs (runP p [.restart, .restart] {}) = .ok [] := rfl
+
+end Qbice.CoreFw
+
